@@ -141,6 +141,22 @@ def acyclic (tags mutexTags : List Nat) (fs : List Fn) : Bool :=
 example : acyclic [1] [1, 1] [⟨0, [0, 1], [], [], [], [], [(0, 1)]⟩, ⟨1, [0, 1], [], [], [], [], [(1, 0)]⟩] = false ∧
     acyclic [1] [1, 1] [⟨0, [0, 1], [], [], [], [], [(0, 1)]⟩, ⟨1, [0, 1], [], [], [], [], []⟩] = true := by decide
 
+/-! ### Guarded-by: fields of a mutex-holding struct are written under its write lock
+
+`unguardedUnexpected` (regenerated) lists, with the tag of the struct's lock, every write to a field of a struct
+that holds a mutex which is made while no mutex of that struct is write-held — in a method that is not only
+ever called under one — and which `known/locks_unguarded_expected.txt` does not classify (set-up before use,
+single-reader contract). A derived value stored after the read lock was released (a cache filled from a stale
+read), a counter bumped outside the lock, a map replaced without it all show up here; the race detector is
+silent about the atomic variants. -/
+
+/-- No unclassified unguarded write concerns the locks tagged `tags` (tag 0 counts for everybody). -/
+def writesGuarded (tags : List Nat) (u : List (Nat × String)) : Bool :=
+  u.all fun p => !(p.1 == 0 || tags.contains p.1)
+
+example : writesGuarded [4] [(4, "FContextImpl.Timeout:FContextImpl.timeout")] = false ∧
+    writesGuarded [4] [(2, "x")] = true ∧ writesGuarded [4] [(0, "y")] = false ∧ writesGuarded [4] [] = true := by decide
+
 /-! Sanity of the decision procedure on the two shapes it exists for (kernel-evaluated). -/
 
 /-- f0 holds mutex 0 and calls f1, which calls f2, which takes mutex 0 again: rejected. -/
